@@ -36,6 +36,9 @@ def mc_cfgs(ctx):
         ("bytes", "BitswapMC.tla", dict(BYTES, Sizes={0, 1, 2, 5} if q else {0, 1, 2, 3, 5}, MaxQ=6 if q else 7),
          MC_LINES + ["INVARIANTS PropInvKF"]),
         ("cert", "BitswapCertMC.tla", {"KnownFindings": True}, ["SPECIFICATION Spec", "INVARIANTS TableOK", "CHECK_DEADLOCK FALSE"]),
+        # certification per message: all sequences of block verdict kinds through the per-block loop
+        ("certmsg", "BitswapMsgMC.tla", {"MaxBlocks": 4 if q else 5, "ZipByPosition": False},
+         ["SPECIFICATION Spec", "INVARIANTS MsgOK", "CHECK_DEADLOCK FALSE"]),
     ]
 
 
@@ -51,6 +54,17 @@ def classify(seg, idx):
         what = ev["verdict"] if ev["verdict"] != "deliver" or (ev["cid_ok"] and ev["data_ok"]) else \
             "deliver-" + ("cid-mismatch" if not ev["cid_ok"] else "data-mismatch")
         return "cert-%s-%s-%s-%s-%s:%s" % (c["pfx"], c["ver"], c["codec"], c["hash"], c["mhlen"], what)
+    if e == "certmsg":
+        if ev["out"] != "ok":
+            return "certmsg:%s" % ev["out"]
+        kinds, dl = ev["kinds"], ev["delivered"]
+        if any(x["d"] == 0 or not kinds[x["d"] - 1].startswith("deliver") for x in dl):
+            return "certmsg:dropped-block-delivered"
+        if any(x["c"] != x["d"] for x in dl):
+            return "certmsg:deliver-cid-mismatch"
+        want = [i + 1 for i, k in enumerate(kinds) if k.startswith("deliver")]
+        got = [x["d"] for x in dl]
+        return "certmsg:deliverable-block-lost" if set(want) - set(got) else "certmsg:delivery-order-or-duplicate"
     if e == "done":
         sizes, b = head["sizes"], head["B"]
         covered = set()
@@ -81,7 +95,9 @@ def what_of(seg, idx):
 def replay_obj(seg, idx, seed):
     head = json.loads(seg[0])
     obj = {"property": "C20", "kind": head.get("kind"), "seed": seed, "rejected_event_index": idx}
-    if head.get("kind") == "cert":
+    if head.get("kind") == "certmsg":
+        obj.update({"event": json.loads(seg[idx - 1]), "bi": head.get("bi"), "kinds": json.loads(seg[idx - 1])["kinds"]})
+    elif head.get("kind") == "cert":
         ev = json.loads(seg[idx - 1])
         obj.update({"class": ev.get("c"), "ci": head.get("ci"), "event": ev})
     else:
@@ -106,7 +122,7 @@ def validate(ctx, lines, mode, tag, max_rejects=8):
 def partition(lines):
     """One part per kind of segment, so that rejections of one kind cannot exhaust the reject budget of
     the others; segments that can hit a recorded finding go to a (small) part of their own."""
-    parts = {"cert": [], "fn": [], "e2e": [], "side": []}
+    parts = {"cert": [], "certmsg": [], "fn": [], "e2e": [], "side": []}
     for seg in split_segments(lines, is_reset):
         h = json.loads(seg[0])
         tiny = h.get("kind") == "e2e" and len(h.get("sizes", [])) >= 65536
@@ -119,7 +135,7 @@ def partition(lines):
 
 def harness_args(ctx, paths):
     q = ctx.quick()
-    return ["--classes", paths["classes"], "--per-class", 6 if q else 40,
+    return ["--classes", paths["classes"], "--per-class", 6 if q else 40, "--messages", paths["msgs"], "--per-msg", 4 if q else 12,
             "--behaviours", paths["behs"], "--fn-real-scale", 40 if q else 1500,
             "--random", 600 if q else 20000, "--len", 24,
             "--e2e-sample", 40 if q else 1200, "--e2e-random", 40 if q else 1500, "--e2e-tiny", 3 if q else 9,
@@ -141,7 +157,14 @@ def check(ctx):
     for i, c in enumerate(classes):
         c["ci"] = i
     log("GEN: %s | %s" % (g1, g2))
-    paths = {"behs": ctx.path("behs.jsonl"), "classes": ctx.path("classes.jsonl"), "trace": ctx.path("trace.ndjson")}
+    msgs, g3 = tlc_generate(ctx, "BitswapMsgMC.tla", write_cfg(
+        ctx, "mgen.cfg", {"MaxBlocks": 3 if ctx.quick() else 4, "ZipByPosition": False}, GEN_LINES))
+    for i, m in enumerate(msgs):
+        m["bi"] = i
+    log("GEN messages: %s" % g3)
+    paths = {"behs": ctx.path("behs.jsonl"), "classes": ctx.path("classes.jsonl"), "trace": ctx.path("trace.ndjson"),
+             "msgs": ctx.path("msgs.jsonl")}
+    write_jsonl(paths["msgs"], msgs)
     write_jsonl(paths["behs"], behs)
     write_jsonl(paths["classes"], classes)
     build_s = cargo_build(ctx, ["bitswap"])
@@ -168,7 +191,10 @@ def check(ctx):
     for s in segs:
         h = json.loads(s[0])
         kinds[h["kind"]] = kinds.get(h["kind"], 0) + 1
-        if h["kind"] == "cert":
+        if h["kind"] == "certmsg":
+            for ln in s[1:]:
+                distinct.add("certmsg:" + json.loads(ln)["message"])
+        elif h["kind"] == "cert":
             for ln in s[1:]:
                 ev = json.loads(ln)
                 k = "%s/%s" % (ev["via"], ev["verdict"])
@@ -176,7 +202,7 @@ def check(ctx):
                 distinct.add(ev["prefix"] + ":" + str(ev["dlen"]) + ":" + ev["c"]["payload"])
         else:
             distinct.add(h["kind"] + ":" + ",".join(map(str, h["sizes"][:64])) + ":%d:%d" % (len(h["sizes"]), h["B"]))
-    if kinds.get("e2e", 0) == 0 or kinds.get("fn", 0) == 0 or kinds.get("cert", 0) == 0:
+    if kinds.get("e2e", 0) == 0 or kinds.get("fn", 0) == 0 or kinds.get("cert", 0) == 0 or kinds.get("certmsg", 0) == 0:
         raise ToolError("a part of the C20 harness produced no executions: %s" % kinds)
     sample = [json.loads(x) for x in (segs[0][:3] + segs[len(segs) // 2][:3])]
     for x in sample:
@@ -196,7 +222,8 @@ def check(ctx):
                 "block_to_response / on_message_received, distinct = distinct (prefix bytes, payload length, intact/tampered)",
         "levels": {"batching": "model_checking", "certification": "exploration"},
         "model_runs": mc,
-        "generation": [g1, g2],
+        "generation": [g1, g2, g3],
+        "certmsg_sequences": len(msgs),
         "harness": summ,
         "segments_by_kind": kinds,
         "cert_verdicts": verdicts,
@@ -228,7 +255,9 @@ def selftest(ctx):
     write_jsonl(ctx.path("behs.jsonl"), behs)
     write_jsonl(ctx.path("classes.jsonl"), classes)
     cargo_build(ctx, ["bitswap"])
-    base = ["--classes", ctx.path("classes.jsonl"), "--per-class", 3, "--behaviours", ctx.path("behs.jsonl"),
+    msgs, _ = tlc_generate(ctx, "BitswapMsgMC.tla", write_cfg(ctx, "mgen.cfg", {"MaxBlocks": 2, "ZipByPosition": False}, GEN_LINES))
+    write_jsonl(ctx.path("msgs.jsonl"), msgs)
+    base = ["--messages", ctx.path("msgs.jsonl"), "--per-msg", 2, "--classes", ctx.path("classes.jsonl"), "--per-class", 3, "--behaviours", ctx.path("behs.jsonl"),
             "--e2e-random", 6, "--seed", ctx.seed]
     harness(ctx, "bitswap", base + ["--out", ctx.path("good.ndjson")])
     good = read_lines(ctx.path("good.ndjson"))
@@ -258,8 +287,13 @@ def selftest(ctx):
                   lambda e: e.update(len=4 * 1024 * 1024 + 1), "msg-over-limit")
     ok &= corrupt(lambda e: e["e"] == "msg" and len(e["r"]) >= 1 and e["r"][0][0] < e["r"][0][1],
                   lambda e: e.update(r=[[e["r"][0][0] + 1, e["r"][0][1]]] + e["r"][1:]), "msg-block-missing (detected at `done`)", later_ok=True)
+    ok &= corrupt(lambda e: e["e"] == "certmsg" and len(e["delivered"]) >= 1,
+                  lambda e: e["delivered"][0].update(c=0), "certmsg-cid-of-nobody")
+    ok &= corrupt(lambda e: e["e"] == "certmsg" and len(e["delivered"]) >= 1 and len(e["kinds"]) > len(e["delivered"]),
+                  lambda e: e["delivered"].append({"d": [i + 1 for i, k in enumerate(e["kinds"]) if not k.startswith("deliver")][0], "c": 1}),
+                  "certmsg-dropped-block-delivered")
     # harness fault injections: the same pipeline, the observation perturbed inside the harness
-    for fault in ("cert-claimed-cid", "batch-drop-one", "batch-dup", "msg-oversize"):
+    for fault in ("cert-claimed-cid", "batch-drop-one", "batch-dup", "msg-oversize", "msg-zip"):
         harness(ctx, "bitswap", base + ["--out", ctx.path("f.ndjson")], env={"VERIF_FAULT": fault})
         r = tlc_trace(ctx, "BitswapTrace.tla", "BitswapTrace.cfg", ctx.path("f.ndjson"))
         log("selftest fault %s -> %s" % (fault, "rejected at line %s" % r if r else "ACCEPTED"))
@@ -268,6 +302,7 @@ def selftest(ctx):
     negs = [
         ("bytes-strict", "BitswapMC.tla", dict(BYTES, Sizes={0, 1, 2, 5}, MaxQ=5), MC_LINES + ["INVARIANTS PropInv"]),
         ("cert-strict", "BitswapCertMC.tla", {"KnownFindings": False}, ["SPECIFICATION Spec", "INVARIANTS TableOK", "CHECK_DEADLOCK FALSE"]),
+        ("certmsg-zip-by-position", "BitswapMsgMC.tla", {"MaxBlocks": 3, "ZipByPosition": True}, ["SPECIFICATION Spec", "INVARIANTS MsgOK", "CHECK_DEADLOCK FALSE"]),
     ]
     for name, spec, consts, lines in negs:
         r = tlc_mc(ctx, spec, write_cfg(ctx, "neg_%s.cfg" % name, consts, lines), workers=2, expect_violation=True)
@@ -296,7 +331,14 @@ def replay(ctx, path):
     obj = json.load(open(path))
     cargo_build(ctx, ["bitswap"])
     args = ["--seed", obj.get("seed", 1), "--out", ctx.path("r.ndjson")]
-    if obj["kind"] == "cert":
+    if obj["kind"] == "certmsg":
+        msgs, _ = tlc_generate(ctx, "BitswapMsgMC.tla", write_cfg(
+            ctx, "mgen.cfg", {"MaxBlocks": len(obj["kinds"]), "ZipByPosition": False}, GEN_LINES))
+        m = [x for x in msgs if x["kinds"] == obj["kinds"]][0]
+        m["bi"] = obj["bi"]
+        write_jsonl(ctx.path("m.jsonl"), [m])
+        args += ["--messages", ctx.path("m.jsonl"), "--per-msg", 12]
+    elif obj["kind"] == "cert":
         write_jsonl(ctx.path("c.jsonl"), [{"c": obj["class"], "ci": obj["ci"]}])
         args += ["--classes", ctx.path("c.jsonl"), "--per-class", 40]
     else:
